@@ -204,6 +204,7 @@ fn plan(prop: &str, o: &mut Out) {
             g_long_valid(o, &["b32", "b64", "b128", "dyn"]);
             g_specials(o);
             g_bytes(o);
+            g_conv_errors(o);
             let c = o.q(2000, 50000);
             g_numerals(o, "parse_str", &["b32", "b64", "b128", "dyn"], c);
             // oversize numerals at every width step above capacity
